@@ -265,7 +265,7 @@ def gen_case(rng, kind, n_ops, malformed=False):
     cap = rng.choice([1, 1, 2, 2, 3, 4, 6])
     tdelay = rng.choice([0, 0, 1, 2, 3]) if kind == "filter" else 0
     im = Impl(kind, cap, tdelay)
-    ops, nprocs, nextitem = [], rng.choice([1, 2, 3, 4]), [0]
+    ops, nprocs, nextitem = [], rng.choice([1, 2, 3, 4]), [-1]     # the first item is 0: a falsy object is an item like any other
     prios = rng.choice([[0], [0, 1], [-2, 0, 0, 3], [5, 5, 1], [-1, -1, -1, 2, 0]])
     used = []
 
@@ -303,7 +303,7 @@ def gen_case(rng, kind, n_ops, malformed=False):
         elif k == "PUT":
             t = rng.choice(granted_put)
             nextitem[0] += 1
-            iid = nextitem[0] if kind == "filter" or rng.random() < 0.8 else rng.randrange(1, 4)
+            iid = nextitem[0] if kind == "filter" or rng.random() < 0.8 else rng.randrange(0, 4)
             op = ("PUT", im.toks[t].requesting_process[1], t, iid)
         elif k == "GET":
             t = rng.choice(granted_get)
